@@ -2037,8 +2037,11 @@ class GT(G):
         for _ in range(self.i(0, 2)):
             v = self.fresh("t")
             c = self.i(0, 9)
-            if c < 4:
+            if c < 3:
                 out.append(("let", v, ("num", float(self.i(0, 9)))))
+            elif c < 4:
+                # a declaration without an initialiser: the name must not stick to lambdas written later
+                out.append(("let", v, None))
             elif c < 6:
                 # natives that run with a stub frame of their own, before the raise: the frames of the natives that are
                 # still active must keep their own names
